@@ -118,7 +118,7 @@ fn baseline(lines: &[String], probe: &str) -> Result<Base, String> {
 
 /// Interrupt after the k-th execute(1) call (at the pending prompt if that call
 /// asked for input), then CONT.
-fn interrupted(lines: &[String], k: usize, inspect: bool, probe: &str) -> Result<Option<(String, String)>, String> {
+fn interrupted(lines: &[String], k: usize, inspect: u8, probe: &str) -> Result<Option<(String, String)>, String> {
     guard(|| {
         let mut s = new_session(lines, 1);
         s.hold_input = true;
@@ -155,9 +155,10 @@ fn interrupted(lines: &[String], k: usize, inspect: bool, probe: &str) -> Result
         s.rt.interrupt();
         s.drain();
         all.extend(remove_break(&s.take()));
-        if inspect {
+        if inspect > 0 {
+            // 1: a direct statement that runs; 2: a mistyped one that is refused with a syntax error
             s.quantum = 5000;
-            s.enter("PRINT I");
+            s.enter(if inspect == 1 { "PRINT I" } else { "PRINT )" });
             s.take();
             s.quantum = 1;
         }
@@ -206,6 +207,13 @@ fn insert_before(p: &Prog, at: usize, what: &Stmt) -> Option<Prog> {
             }
             i += 1;
         }
+        // and behind the last statement of the list: the end of a THEN part
+        // (an ELSE may follow), of an ELSE part, of the line
+        if *k == at {
+            v.push(what.clone());
+            return true;
+        }
+        *k += 1;
         false
     }
     let mut q = p.clone();
@@ -377,8 +385,12 @@ fn judge_prog(p: &Prog, d: Depth, ctx: &mut Ctx) {
     let has_tron = text.contains("TRON");
     let kmax = if d.k_all { 160 } else { 40 };
     for k in 1..=kmax {
-        for inspect in [false, true] {
-            if !ctx.begin(&format!("{} ; interrupt after {} single-instruction calls{}, CONT", text, k, if inspect { ", PRINT I" } else { "" })) {
+        for mode in [0u8, 1, 2] {
+            if mode == 2 && k > 16 {
+                continue;
+            }
+            let inspect = mode > 0;
+            if !ctx.begin(&format!("{} ; interrupt after {} single-instruction calls{}, CONT", text, k, ["", ", PRINT I", ", a mistyped direct line"][mode as usize])) {
                 continue;
             }
             if has_tron {
@@ -395,7 +407,7 @@ fn judge_prog(p: &Prog, d: Depth, ctx: &mut Ctx) {
                 ctx.acc.evals -= 1;
                 continue;
             }
-            match interrupted(&lines, k, inspect, &probe) {
+            match interrupted(&lines, k, mode, &probe) {
                 Err(pn) => ctx.violation("interrupt-cont/panic", pn),
                 Ok(None) => {
                     ctx.acc.evals -= 1;
@@ -458,7 +470,7 @@ fn judge_prog(p: &Prog, d: Depth, ctx: &mut Ctx) {
                     if lists_itself {
                         // a program that LISTs itself shows the inserted statement: take it out of the listed text
                         for t in g.0.iter_mut() {
-                            *t = t.replace(&format!("{}:", nm), "");
+                            *t = t.replace(&format!("{}:", nm), "").replace(&format!(":{}", nm), "");
                         }
                     }
                     let otext = normalize_plain(&o.0.concat());
